@@ -57,6 +57,7 @@ e6f927d C16 C16.destreads
 ae28e34 C03 C03.nullwidth thorough
 550d93b C05 C05.nanbounds
 b76b929 C14 C14.rollback
+13bb510 C05 C05.nanbounds
 LIST
 git -C /repo worktree remove --force $WT
 rm -rf /tmp/fixcheck-ev
